@@ -6,6 +6,7 @@ import (
 	"context"
 	"fmt"
 	"math/rand/v2"
+	"net"
 	"strings"
 	"sync"
 	"sync/atomic"
@@ -16,6 +17,7 @@ import (
 
 	"github.com/containerd/nri/pkg/adaptation"
 	"github.com/containerd/nri/pkg/api"
+	"github.com/containerd/nri/pkg/stub"
 )
 
 type c08Plugin struct {
@@ -29,8 +31,8 @@ type c08Plugin struct {
 	connectErr error
 }
 
-func runC08Round(dir string, g *rand.Rand, creators, nplugins, perCreator, failing int, res *ev.Result, tag string, hookOn bool) {
-	what := map[string]any{"round": tag, "creators": creators, "plugins": nplugins, "containers_per_creator": perCreator, "hooks": hookOn, "plugins_failing_sync": failing}
+func runC08Round(dir string, g *rand.Rand, creators, nplugins, perCreator, failing int, res *ev.Result, tag string, hookOn, big bool) {
+	what := map[string]any{"big_state": big, "round": tag, "creators": creators, "plugins": nplugins, "containers_per_creator": perCreator, "hooks": hookOn, "plugins_failing_sync": failing}
 	rt, err := rig.NewRuntime(dir)
 	if err != nil {
 		res.Note("runtime: %v", err)
@@ -43,6 +45,14 @@ func runC08Round(dir string, g *rand.Rand, creators, nplugins, perCreator, faili
 	var store sync.Mutex
 	var ctrs []*api.Container
 	pod := &api.PodSandbox{Id: "pod-" + tag, Name: "pod"}
+	if big {
+		// the store already holds more than one message can carry: every snapshot is sent in several
+		// messages (one pod, many containers: the two lists run out at different moments)
+		for i := 0; i < 100; i++ {
+			id := fmt.Sprintf("%s-ballast%d", tag, i)
+			ctrs = append(ctrs, &api.Container{Id: id, PodSandboxId: pod.Id, Name: id, Env: []string{"PAD=" + payload(50<<10)}})
+		}
+	}
 	rt.SyncFn = func(ctx context.Context, cb adaptation.SyncCB) error {
 		mon.Lock()
 		if held > 0 {
@@ -131,7 +141,7 @@ func runC08Round(dir string, g *rand.Rand, creators, nplugins, perCreator, faili
 		for _, cp := range plugins {
 			for synced := false; !synced; {
 				select {
-				case <-cp.p.Synced:
+				case <-cp.p.SyncedCh():
 					synced = true
 				case <-time.After(50 * time.Millisecond):
 					cp.mu.Lock()
@@ -190,7 +200,37 @@ func runC08Round(dir string, g *rand.Rand, creators, nplugins, perCreator, faili
 		go func() {
 			defer pwg.Done()
 			time.Sleep(delays[cp.pos])
-			if err := cp.p.Connect(rt.Sock); err != nil {
+			if big && cp.pos == 0 && !cp.failSync {
+				// this plugin's first connection is cut in the middle of the second synchronization message;
+				// the same stub then registers again: what it accepted of the aborted snapshot must be forgotten
+				if conn, err := net.Dial("unix", rt.Sock); err == nil {
+					cut := rig.NewCutConn(conn)
+					cut.ArmRead(4600 << 10)
+					if err := cp.p.Connect(rt.Sock, stub.WithConnection(cut)); err == nil {
+						if rig.Await(cp.p.ClosedCh(), 20*time.Second, 60*time.Second) != "hang" && cut.WasCut() {
+							res.Count("registrations_cut_mid_snapshot", 1)
+							if err := cp.p.Restart(); err != nil {
+								cp.mu.Lock()
+								cp.connectErr = err
+								cp.mu.Unlock()
+								res.Note("%s: plugin 0 did not get restarted: %v", tag, err)
+							}
+							return
+						}
+						res.Note("%s: plugin 0: the connection was not cut mid-snapshot (read %d bytes)", tag, cut.ReadN())
+						return
+					}
+					conn.Close()
+				}
+			}
+			err := cp.p.Connect(rt.Sock)
+			for try := 0; err != nil && try < 3 && strings.Contains(err.Error(), "deadline exceeded"); try++ {
+				// the stub's own 5 s registration timeout expired behind the runtime's serial accept loop:
+				// nothing was registered; try again
+				res.Count("stub_registration_timeouts_retried", 1)
+				err = cp.p.Connect(rt.Sock)
+			}
+			if err != nil {
 				// the stub's own registration timeout (5 s, not configurable before the first configuration) can
 				// expire on a starved machine while the runtime's serial accept loop is busy: such a plugin never
 				// completed registration; the round says nothing about it
@@ -221,7 +261,7 @@ func runC08Round(dir string, g *rand.Rand, creators, nplugins, perCreator, faili
 			res.Inconcl()
 			continue
 		}
-		if st := rig.Await(cp.p.Synced, 5*time.Second, 60*time.Second); st == "hang" {
+		if st := rig.Await(cp.p.SyncedCh(), 5*time.Second, 60*time.Second); st == "hang" {
 			res.Violate("C08/registration-stuck", fmt.Sprintf("plugin %d was not synchronized although no sync block is held any more; goroutines:\n%s", cp.pos, nriStacks()), what)
 			return
 		} else if st == "slow" {
@@ -286,7 +326,7 @@ func runC08Round(dir string, g *rand.Rand, creators, nplugins, perCreator, faili
 		if nsnap > 0 && nev > 1 {
 			overl++
 		}
-		res.Seen(fmt.Sprintf("split|snap%d|events%d", bucket(nsnap), bucket(nev)))
+		res.Seen(fmt.Sprintf("split|snap%d|events%d|big%v", bucket(nsnap), bucket(nev), big))
 		cp.mu.Unlock()
 	}
 	res.Count("registrations", int64(len(plugins)))
@@ -333,7 +373,11 @@ func runC08(c *ev.ChildEnv, res *ev.Result) {
 		mkdirAll(dir)
 		res.Eval()
 		failing := i % 2
-		runC08Round(dir, g, creators, nplugins, per, failing, res, tag, on)
+		big := i%5 == 4
+		if big {
+			nplugins = min(nplugins, 3)
+		}
+		runC08Round(dir, g, creators, nplugins, per, failing, res, tag, on, big)
 		if i == 0 {
 			res.Sample(map[string]any{"round": tag, "creators": creators, "plugins": nplugins, "containers_per_creator": per, "hooks": on,
 				"oracle": "for every registered plugin and every container of the final store: [in snapshot] + #creation requests = 1; no sync while a block is held"})
